@@ -59,6 +59,11 @@ func TestC08FailedTx(t *testing.T) {
 				rec.Discard("invalid-genesis")
 				return
 			}
+			var ec chain.ErrEngineContract
+			if errors.As(err, &ec) {
+				rec.Discard("engine-contract-at-genesis:" + chain.Why(ec.Err)) // C10 / C14 report it
+				return
+			}
 			ev.Infra(t, "new sim: %v", err)
 		}
 		cur = sim
